@@ -15,3 +15,8 @@ Proof. vm_compute. auto. Qed.
 (* a split job and a replace-input job satisfying c10_wf *)
 Example ex_c10_wf : c10_wf (ScSplit [(1, [[1]%N]); (2, [[2]%N])]) /\ c10_wf (ScReplace 1 2 3 [[1]%N]).
 Proof. split; [repeat constructor; simpl; intuition discriminate|simpl; repeat split; discriminate]. Qed.
+(* a JSON job meeting the hypothesis of exit_ok_implies_complete_json: one stream file opened, fed between main-file writes, closed *)
+Example ex_c10_json : exists st md,
+  c10_json_sim 1 [JChunk [123]%N; JStreamOpen 2; JChunk [34]%N; JStreamChunk 2 [1; 2; 3]%N; JStreamEnd 2; JChunk [125; 10]%N] (fun _ => None) [] = Some (st, md)
+  /\ md = [123; 34; 125; 10]%N /\ st 2 = Some (false, [1; 2; 3]%N).
+Proof. eexists; eexists. split; [reflexivity|]. split; reflexivity. Qed.
